@@ -218,6 +218,12 @@ SCENARIOS = [
     dict(prop="C18", name="D111 failing removal of an empty file with -b", tree={b"f": b""}, argv=[b"-f", b"-b", b"-i", b"p.diff"],
          patch=b"--- f\n+++ /dev/null\n@@ -1 +0,0 @@\n-a\n",
          expect=lambda r: _exp(r.exit == 1 and files(r).get(b"f") == b"" and files(r).get(b"f.orig") == b"", f"no backup although -b was given and the file was written (tree {sorted(files(r))})")),
+    dict(prop="C06", name="D112 removal applied a second time with -N -o out", tree={b"out": b"old\nout\n"}, argv=[b"-N", b"-o", b"out", b"-i", b"p.diff"],
+         patch=b"--- f\n+++ /dev/null\n@@ -1,3 +0,0 @@\n-a\n-b\n-c\n",
+         expect=lambda r: _exp(r.exit == 1 and files(r).get(b"out") == b"old\nout\n", f"a patch which was skipped (nothing to read) emptied the file named with -o (out = {files(r).get(b'out')!r})")),
+    dict(prop="C04", name="D112 removal applied in part with -o out which does not exist", tree={b"f": b"a\nb\n"}, argv=[b"-f", b"--no-backup-if-mismatch", b"-o", b"out", b"-i", b"p.diff"],
+         patch=b"--- f\n+++ /dev/null\n@@ -1,2 +0,0 @@\n-a\n-b\n@@ -3,2 +0,0 @@\n-c\n-d\n",
+         expect=lambda r: _exp(r.exit == 1 and files(r).get(b"out") == b"" and files(r).get(b"f") == b"a\nb\n", f"hunk 1 was reported as applied but its result was written nowhere (tree {sorted(files(r))})")),
     # ---- recorded in round three ----------------------------------------------------------------------------------------------------------
     dict(prop="C01", name="D86 first line of the first hunk is an empty line", tree={b"f": b"\nb\nc\n"}, argv=[b"-i", b"p.diff"],
          patch=b"--- f\n+++ f\n@@ -1,3 +1,3 @@\n\n-b\n+B\n c\n",
